@@ -7,8 +7,12 @@ VERIF = os.path.dirname(os.path.dirname(os.path.abspath(__file__)))
 
 
 def main():
-    with open(os.path.join(VERIF, "sensitivity", "results.json")) as f:
-        res = json.load(f)
+    res = []
+    for name in ("results-mutants.json", "results-legit.json"):
+        pth = os.path.join(VERIF, "sensitivity", name)
+        if os.path.exists(pth):
+            with open(pth) as f:
+                res += json.load(f)
     needs = {}
     for meta in glob.glob(os.path.join(VERIF, "seeded", "*", "meta.json")):
         with open(meta) as f:
